@@ -12,16 +12,22 @@ RULE = ('one run = a stored file with a block-size table (samples of 20.2.0.7, s
         'every string index below the old count denotes the same string, output walks to its footer and loads. non-trivial = at least one block was relabelled and the file '
         'loaded; distinct = distinct (file, subset, name variant, options).')
 ASSUMPTIONS = ['only relabelled blocks are required to be byte-identical (known blocks may be normalised as in C01)', 'files without a block-size table (Oblivion) cannot carry unknown blocks and are skipped']
-EXPECTED_PROBES = ['unknown_blocks_present', 'root_relabelled']
+EXPECTED_PROBES = ['unknown_blocks_present', 'root_relabelled', 'saved_through_a_copy']
 SIZED_VERSIONS = ['FO3', 'SK', 'SSE', 'FO4', 'FO4_132', 'FO4_139', 'FO76', 'SF', 'SF173']
 
 
 def jobs(tier, seed, pool):
     out = []
 
+    viarng = Rng(seed, PROP, 'via')
+
     def add(init, relabel, all_=False, same_len=True, raw=True, queries=False, kind='sample', resave=False):
         p = {'property': PROP, 'profile': 'unknown', 'init': init, 'relabel': relabel, 'all': all_, 'same_len': same_len, 'raw': raw, 'queries': queries,
              'resave_first': resave, 'timeout_s': 40}
+        v = viarng.below(10)
+        if v < 3:
+            p['via'] = 'copy' if v < 2 else 'assign'
+            p['destroy_original'] = viarng.chance(0.7)
         out.append({'plan': p, 'meta': {'kind': kind}})
 
     names = [n for n, _ in inputs.sample_names('in') if 'OB' not in n]
